@@ -76,9 +76,23 @@ TERM = {
     30: URIRef("http://one/s"), 31: URIRef("http://one/p"),     # namespaces for `_x` / `p_x` prefix pairs
     32: URIRef("http://two/s"), 33: URIRef("http://three/p"),
     34: URIRef("http://dot/ns#s"), 35: URIRef("http://dot/ns#p."),   # a predicate whose local name ends in "."
+    36: URIRef(EX + "zz"), 37: URIRef("http://other/ns#x"),           # IRIs handed to qname / compute_qname only
     20: Literal(""), 21: Literal(0), 22: Literal(False), 23: Literal("x", lang="en"), 24: Literal("1"),
     25: Literal("2024-02-03", datatype=XSD.date), 26: RDF.nil, 27: Literal("a\"b\nc"), 28: URIRef(EX + "C"),
 }
+# namespaces (ids owned by the harness; the Lean driver gets the term -> namespace table as `nsof` lines).  The
+# namespace of an IRI is everything up to its last '#', else its last '/' — written down here, not taken from rdflib.
+NS = {1: EX, 2: "http://www.w3.org/1999/02/22-rdf-syntax-ns#", 3: "http://o/ns#", 4: "http://t/ns#", 5: "http://one/",
+      6: "http://two/", 7: "http://three/", 8: "http://dot/ns#", 9: "http://other/ns#"}
+NS_REV = {v: k for k, v in NS.items()}
+
+
+def _ns_of_iri(iri):
+    cut = iri.rfind("#") if "#" in iri else iri.rfind("/")
+    return iri[:cut + 1]
+
+
+TERM_NS = {tid: NS_REV[_ns_of_iri(str(t))] for tid, t in sorted(TERM.items()) if isinstance(t, URIRef)}
 SUBJ = [1, 2, 3, 4, 5, 6]
 PRED = [10, 11, 12, 15]
 OBJ = [1, 2, 3, 4, 5, 6, 20, 21, 22, 23, 24, 25, 27, 28, 29]
@@ -634,9 +648,29 @@ def snapshot(case, top):
     return sorted(quads), sorted(names)
 
 
-def _obs_line(snap):
+def _obs_line(snap, ns=()):
     qs, names = snap
-    return " ".join(sorted(",".join(q) for q in qs)) + " | " + " ".join(sorted(names))
+    return (" ".join(sorted(",".join(q) for q in qs)) + " | " + " ".join(sorted(names))
+            + " | " + " ".join(sorted(ns)))
+
+
+_DEFAULT_NS = None
+
+
+def ns_obs(top):
+    """the vocabulary's namespaces that have a prefix in the store's tables (ids of `NS`); a namespace outside the
+    vocabulary and outside rdflib's default bindings shows up as `?<iri>` (the model has no such id: a divergence)"""
+    global _DEFAULT_NS
+    if _DEFAULT_NS is None:
+        _DEFAULT_NS = {str(u) for _p, u in Graph().namespaces()}
+    out = set()
+    for _pfx, uri in top.namespaces():
+        u = str(uri)
+        if u in NS_REV:
+            out.add(str(NS_REV[u]))
+        elif u not in _DEFAULT_NS:
+            out.add("?" + u)
+    return out
 
 
 # ------------------------------------------------------------------ the read calls
@@ -1307,6 +1341,7 @@ def _run_impl(case, refs=None):
         stats[k] = stats.get(k, 0) + n
 
     ns_before = set(top.namespaces())
+    ns_ids = [ns_obs(top)]
 
     def check_state(k, rd, phase):
         nonlocal before, ns_before
@@ -1317,6 +1352,10 @@ def _run_impl(case, refs=None):
             if api_name(rd) not in MODEL_MAY_BIND:
                 bump(f"{kind}_unmodelled:{api_name(rd)}")
             ns_before = ns_now
+            # per-axis count: which vocabulary namespaces this API bound (compared with the model's `ns` in `obs`)
+            for n in sorted(ns_obs(top) - ns_ids[0]):
+                bump(f"ns_bound:{api_name(rd)}:{NS.get(int(n), n) if n.isdigit() else n}")
+        ns_ids[0] = ns_obs(top)
         while _SIDE_VIOL:
             viol.append(_SIDE_VIOL.pop())
         now = snapshot(case, top)
@@ -1349,7 +1388,7 @@ def _run_impl(case, refs=None):
                 viol.append(f"nondeterministic:{name}: read #{k} {rd!r} answered differently on call {rep_no} in a row: "
                             f"{_short(a1)} vs {_short(a2)}")
                 break
-        obs.append(_obs_line(now))
+        obs.append(_obs_line(now, ns_ids[0]))
         bump("api_" + rd[0])
         if rd[0] == "ser":
             bump("fmt_" + rd[1])
@@ -1366,7 +1405,7 @@ def _run_impl(case, refs=None):
         elif not same:
             viol.append(f"nondeterministic:{api_name(reads[0])}: read {reads[0]!r} answered differently after the "
                         f"read-only sequence {reads[1:]!r}: {_short(first_ans)} vs {_short(again)}")
-        obs.append(_obs_line(now))
+        obs.append(_obs_line(now, ns_ids[0]))
     for k_s, enc in sorted((refs or {}).items(), key=lambda kv: int(kv[0])):
         k = int(k_s)
         a = first_answers[_json.dumps(reads[k])][1]
@@ -1430,22 +1469,24 @@ def _tok_rev():
 
 def _model_ser(rd, multi):
     fmt, opt = rd[1], SER_OPTS[rd[2]]
+    # `base=`: IRIs relative to it are written as <rel>, no getQName for them (Turtle family only)
+    base = NS_REV.get(opt["base"], "-") if "base" in opt else "-"
     if fmt in ("nt", "nt11"):
         return "read flat"
     if fmt in ("turtle", "n3"):
-        return "read turtle"
+        return f"read turtle {base}"
     if fmt == "longturtle":
-        return f"read longturtle {1 if opt.get('canon') else 0}"
+        return f"read longturtle {1 if opt.get('canon') else 0} {base}"
     if fmt == "xml":
         return "read xml"
     if fmt == "pretty-xml":
         return f"read prettyxml {opt.get('max_depth', 3)}"
     if not multi:
-        return "read turtle" if fmt == "trig" else "read pure"   # quad formats refuse / degrade on a plain Graph
+        return f"read turtle {base}" if fmt == "trig" else "read pure"   # quad formats refuse / degrade on a plain Graph
     if fmt == "json-ld":
         return "read jsonld"
     if fmt == "trig":
-        return "read trig"
+        return f"read trig {base}"
     if fmt == "patch":
         return "read patchtarget" if opt.get("_target") else "read patch"
     return "read ctxs"               # nquads, trix, hext
@@ -1467,7 +1508,8 @@ def model_read(case, rd):
     if api == "cmp" and rd[1] == "skolemize":
         return "read skolemize"
     if api == "basic" and rd[1] == "qname":
-        return "read qname 15"
+        # target.qname(<http://e/zz> | <http://e/a>), then compute_qname(<http://other/ns#x>): both generate=True
+        return [f"read qname {36 if rd[5] else 1}", "read qname 37"]
     if api == "nav" and rd[1] == "cbd":
         return f"read cbd {rd[2]}"
     if not multi:
@@ -1498,28 +1540,40 @@ def model_read(case, rd):
     return "read pure"
 
 
+def _model_read_lines(case, rd):
+    m = model_read(case, rd)
+    return [m] if isinstance(m, str) else list(m)
+
+
 def model_lines(case):
     cfg = case["cfg"]
     lines = ["reset " + cfg]
+    for tid, n in TERM_NS.items():
+        lines.append(f"nsof {tid} {n}")
+    lines.append("bind 2")                                   # rdf: is one of rdflib's default bindings
+    if not case.get("nobind"):
+        lines.append("bind 1")
+    for _pfx, ns in case.get("binds", []):
+        lines.append(f"bind {NS_REV[ns]}")
     for s, p, o, g in case["quads"]:
         lines.append(f"quad {s} {p} {o} {GTOK[g]}")
     for g in case.get("empty", []):
         if cfg != "g":
             lines.append(f"reg {GTOK[g]}")
+    if cfg == "view":
+        lines.append(f"view {GTOK[case.get('view', 0)]}")
     for rd in case["reads"]:
-        lines.append(model_read(case, rd))
-        if case["twice"]:
-            lines += [model_read(case, rd)] * (case.get("reps", 2) - 1)
+        lines += _model_read_lines(case, rd) * (case.get("reps", 2) if case["twice"] else 1)
         lines.append("obs")
     if not case["twice"] and case["reads"]:
-        lines.append(model_read(case, case["reads"][0]))
+        lines += _model_read_lines(case, case["reads"][0])
         lines.append("obs")
     return lines
 
 
 def _canon_model_line(line):
-    qs, _, names = line.partition("|")
-    return " ".join(sorted(qs.split())) + " | " + " ".join(sorted(names.split()))
+    parts = (line.split("|") + ["", ""])[:3]
+    return " | ".join(" ".join(sorted(p.split())) for p in parts)
 
 
 def select_model_obs(case, out):
